@@ -21,7 +21,7 @@ EXPLANATION = (
     "recorded, the summary printer zeroes its count and returns before any write under quit mode, and every sink "
     "resets the offset in begin; (MODE) detection-mode truth tables, explicit files never get `quit`, the mode is "
     "installed before any search, and NUL is banned from patterns when detection is on. Where the NUL sits relative "
-    "to buffers and matches is not decided.")
+    "to buffers and matches is not decided. (DETECT) Core::detect_binary scans the whole given range unless an offset is already known or detection is off, and a found byte is recorded and reported.")
 NOT_DECIDED = ["where the NUL byte sits relative to buffers, matches and context",
                "that the JSON / summary printers never emit raw bytes (escaping by construction, not analysed)"]
 
